@@ -59,6 +59,15 @@ def enumerate_cases(tier: str):
         for parked in (1, 2):
             for senders in ([[0, True]], [[0, True], [0, True]], [[1, True], [3, True]], [[0, False], [0, True]]):
                 yield {"kind": "race", "config": {"version": version, "parked": parked, "other_parked": 0, "senders": senders}}
+    # two commands held for a sleeping node, one event of every kind, then the wake (twice): both are still owed
+    for version in ("2.0", "2.1", "2.2"):
+        wake = ["rx", f"11;255;3;0;{32 if version == '2.2' else 22};7\n"]
+        for event in (["session"], ["save"], ["reload"], ["fault", 1], ["fault", 2], ["rx", "0;255;3;0;14;Gateway startup complete.\n"], ["rx", "11;255;0;0;17;2.0\n"],
+                      ["rx", "0;255;3;0;2;2.2.0\n"], ["rx", "11;1;1;0;3;1\n"], ["rx", "2;255;3;0;22;7\n"], ["rx", "junk\n"]):
+            for cmds in ([[11, 1, 1, 0, 3, "0"], [11, 2, 1, 0, 3, "1"]], [[11, 1, 1, 0, 3, "0"], [11, 1, 1, 1, 23, "1"], [11, 2, 2, 0, 3, ""]]):
+                ops = [["send", m, None] for m in cmds] + [event, wake, wake]
+                yield {"kind": "hist", "version": version, "ops": ops}
+                yield {"kind": "hist", "version": version, "ops": [["session"]] + ops}
     versions = ("1.4", "1.5", "2.0", "2.1", "2.2") if tier == "thorough" else ("1.5", "2.2")
     for version in versions:
         for dest in ("unknown", "awake", "sleeping"):
@@ -143,11 +152,13 @@ def _hist_strategy():
         st.builds(lambda n: ["rx", f"{n};255;3;0;0;50\n"], node),
         st.sampled_from((["rx", "0;255;3;0;9;log\n"], ["rx", "junk\n"], ["rx", "0;255;3;0;2;2.2.0\n"])),
     )
+    # what the application and the link do meanwhile: reconnect on the same gateway object, registry saved / reloaded, the next writes fail
+    events = st.sampled_from((["session"], ["session"], ["save"], ["reload"], ["fault", 1], ["fault", 1], ["fault", 2]))
     return st.fixed_dictionaries(
         {
             "kind": st.just("hist"),
             "version": gen.versions_any,
-            "ops": st.lists(gen.weighted((4, send), (3, send_set), (2, send_req), (2, send_internal), (2, wake), (3, other)), min_size=6, max_size=25),
+            "ops": st.lists(gen.weighted((4, send), (3, send_set), (2, send_req), (2, send_internal), (2, wake), (3, other), (1, events)), min_size=6, max_size=25),
         }
     )
 
@@ -171,9 +182,37 @@ def _run_hist(case: dict) -> Outcome:
             info["released"] += len(pending)
             return None
 
+        in_session = False
+        persistence = None
+        tmpdir = None
         for idx, op in enumerate(case["ops"]):
             transport.step = idx
             where = f"step {idx} {str(op)[:100]} under {case['version']}"
+            if op[0] == "session":
+                if in_session:
+                    await gateway.__aexit__(None, None, None)
+                await gateway.__aenter__()
+                in_session = True
+                info["events"] = info.get("events", 0) + 1
+                continue
+            if op[0] in ("save", "reload"):
+                if persistence is None:
+                    import os
+                    import tempfile
+
+                    from aiomysensors.persistence import Persistence
+
+                    tmpdir = tempfile.mkdtemp(prefix="vfc12-", dir="/dev/shm" if os.path.isdir("/dev/shm") else None)
+                    info["tmpdir"] = tmpdir
+                    persistence = Persistence(gateway.nodes, os.path.join(tmpdir, "registry.json"))
+                await (persistence.save() if op[0] == "save" else persistence.load())
+                info["events"] = info.get("events", 0) + 1
+                continue
+            if op[0] == "fault":
+                start = len(transport.attempts)
+                transport.fail_attempts = set(range(start, start + int(op[1])))
+                info["events"] = info.get("events", 0) + 1
+                continue
             if op[0] == "send":
                 msg, buffer = op[1], op[2]
                 line = ref_format(*msg)
@@ -201,6 +240,11 @@ def _run_hist(case: dict) -> Outcome:
             status, value = await env.rx(gateway, line)
             if status == "leak":
                 continue  # C03's subject
+            if status != "ok":
+                # (a flush cut short by a write fault: what did get written is no longer owed, the rest still is)
+                for pending in owed.values():
+                    for key in [k for k, l in pending.items() if l in transport.writes_at(idx)]:
+                        del pending[key]
             if status == "ok" and len(parts) >= 6 and parts[2] == "3" and plain_int(parts[0]):
                 node, mtype = int(parts[0]), parts[4]
                 rules = gateway.protocol.VERSION
@@ -211,6 +255,7 @@ def _run_hist(case: dict) -> Outcome:
                         return bad
         # settle the remaining debts: make the gateway 2.2 and let every debtor announce it is awake
         transport.step = len(case["ops"])
+        transport.fail_attempts = set()
         if owed:
             await env.rx(gateway, "0;255;3;0;2;2.2.0\n")
         for node in sorted(owed):
@@ -223,8 +268,14 @@ def _run_hist(case: dict) -> Outcome:
                 return bad
         return None
 
-    bad = env.run(go())
-    classes = ("hist", f"version={case['version']}") + (("hist-parked",) if info["parked"] else ()) + (("hist-released",) if info["released"] else ())
+    try:
+        bad = env.run(go())
+    finally:
+        if info.get("tmpdir"):
+            import shutil
+
+            shutil.rmtree(info["tmpdir"], ignore_errors=True)
+    classes = ("hist", f"version={case['version']}") + (("hist-events",) if info.get("events") else ()) + (("hist-parked",) if info["parked"] else ()) + (("hist-released",) if info["released"] else ())
     if bad is not None:
         bad.classes = classes
         return bad
